@@ -86,6 +86,10 @@ def cases_for(rng, n, ctx):
             # the same samples a second time: importing is not consuming
             back2 = _call(lambda: pe.import_jackknife(jk, name, idl=[idl]))
             cases.append({'id': 'ji2-' + tag, 'ev': 'jack_import', 'obs': po, 'res': _res(back2)})
+            if i % 4 == 0:
+                wrong = list(idl)[:-2] if i % 8 == 0 else list(idl) + [max(idl) + 1, max(idl) + 2, max(idl) + 5]
+                bad = _call(lambda: pe.import_jackknife(jk, name, idl=[wrong]))
+                cases.append({'id': 'jibad-' + tag, 'ev': 'jack_import_bad', 'nidl': len(wrong), 'nsamples': N, 'res': {'k': 'exc' if isinstance(bad, Exception) else 'obs'}})
             ctx.nontrivial.add((N, cls, kind))
             if N <= 40:
                 # bootstrap with a supplied table
